@@ -50,7 +50,7 @@ fn is_mapped(addr: usize) -> bool {
     })
 }
 
-const LOADERS: [&str; 4] = ["load_full", "load_mem", "load_mmap", "mmap"];
+const LOADERS: [&str; 5] = ["load_full", "load_mem", "load_mmap", "mmap", "encase"];
 
 fn few(n: usize, k: usize) -> Vec<usize> {
     if n <= k { (0..n).collect() } else { let mut v: Vec<usize> = (0..k - 1).collect(); v.push(n - 1); v }
@@ -93,9 +93,9 @@ pub fn c08(t: &dyn TypeOps, cx: &mut Cx) {
         cx.count(&format!("file_len_mod64_{:02}", flen % 64), 1);
         let mut hs: Vec<Vec<u8>> = vec![vec![], vec![0, 1, 2, 3, 4, 5]];
         if simple && vi == 0 { hs = histories(cx.tier.pick(2, 3)); hs.push(vec![0, 1, 2, 3, 4, 5]); }
-        for loader in 0..4u8 {
+        for loader in 0..5u8 {
             for (fi, &flags) in flagsets.iter().enumerate() {
-                if loader < 2 && fi > 0 { continue; } // flags only matter for the mmap-based loaders
+                if (loader < 2 || loader == 4) && fi > 0 { continue; } // flags only matter for the mmap-based loaders
                 for h in &hs {
                     if loader == 0 && !h.is_empty() { continue; }
                     if fi > 0 && !h.is_empty() { continue; }
@@ -114,6 +114,7 @@ pub fn c08(t: &dyn TypeOps, cx: &mut Cx) {
                         if ob.val != expect { bad.push(format!("value-differs-from-eps-of-file-bytes@{}", k)); }
                         if loader == 0 { continue; }
                         let (kind, base, len) = ob.region;
+                        if loader == 4 { if kind != 0 || len != 0 { bad.push("encased-structure-reports-a-backend".into()); } continue; }
                         let want_kind = if loader == 1 { 1 } else { 2 };
                         if kind != want_kind { bad.push("backend-kind".into()); continue; }
                         if base % 64 != 0 { bad.push("region-not-aligned-to-64".into()); }
